@@ -362,8 +362,33 @@ func s13() *sched.Scenario {
 		}}
 }
 
+// S14: a permission's timer fires (its expiry runs under the permissions lock, callback included) while a
+// ChannelBind for a NEW channel to another port of that host is handled (binding table, then the permission of the
+// peer): the two take the allocation's two locks, each from its own side; callbacks yield.
+func s14() *sched.Scenario {
+	return &sched.Scenario{Name: "S14-permission-expiry-vs-new-channelbind", Bound: bound(), FreeBound: -1, Opt: opt,
+		Body: func(*vsched.Sched) (func() []string, func()) {
+			w := sched.NewBW(sched.BCfg{Perm: time.Second, Chan: 10 * time.Second, CB: yieldCB})
+			c := w.NewClient("c1")
+			var f flags
+			vsched.Go("client", func() {
+				c.Do(wire.Allocate, udp)
+				c.Do(wire.CreatePermission, peer("A"))
+				vsched.IdleSleep(time.Second - time.Nanosecond)
+				vsched.Mark()
+				c.Do(wire.ChannelBind, chanAttrs(0x4000, "A2"))
+				c.Do(wire.ChannelBind, chanAttrs(0x4001, "B"))
+				vsched.IdleSleep(2 * time.Second)
+				c.Do(wire.Refresh, lifetime(0))
+				f.set("client")
+			})
+
+			return f.need("client"), func() { _ = w.Srv.Close() }
+		}}
+}
+
 func scenarios() []*sched.Scenario {
-	return []*sched.Scenario{s1(), s2(), s3(), s4(), s5(), s6(), s7(), s8(), s10(), s11(), s12(), s13()}
+	return []*sched.Scenario{s1(), s2(), s3(), s4(), s5(), s6(), s7(), s8(), s10(), s11(), s12(), s13(), s14()}
 }
 
 func TestC18Sched(t *testing.T) {
